@@ -29,6 +29,9 @@ FailC14(c) ==
   ELSE IF c.outcome = "ok" /\ ~st THEN <<"parse.accepts_bad_interval", "RTAMT", "ok">>
   ELSE IF c.outcome = "ok" /\ c.evalOut \notin ({"ok", "RTAMT", "skipped"} \cup ArithExc)
        THEN <<"parse.implicit_declaration", "ok or RTAMT at first evaluation", c.evalOut>>
+  \* the same object asked again, text unchanged: a text outside the language stays rejected, and cleanly (seed C14-g)
+  ELSE IF c.outcome = "RTAMT" /\ ~st /\ c.outcome2 = "ok" THEN <<"parse.accepts_at_second_call", "RTAMT", "ok">>
+  ELSE IF c.outcome = "RTAMT" /\ c.outcome2 \notin {"", "ok", "RTAMT"} THEN <<"parse.outcome_second_call", "ok or RTAMT", c.outcome2>>
   ELSE <<>>
 
 \* C15: the spelling denotes the AST phi
